@@ -210,6 +210,9 @@ def run(ck, a):
   ck.assumptions += ['MJCF frame composition oracle, validated against real mujoco on concrete instances every run', "'%f' formatting treated as exact"]
   proxy = fx.NumpyProxy()
   saved = mjcf.np
+  import time
+  fx_budget = 420 if not thorough else 7200      # wall-clock budget of the whole path-exploration phase (a fork explosion ends as exit 3, or as exit 1 if an explored path already violates)
+  fx_deadline = time.time() + fx_budget
   replay_docs = {}
   npaths = 0
   try:
@@ -224,8 +227,17 @@ def run(ck, a):
       # quick tier: positions of the fused bodies are assumed to have a non-zero first component, which prunes the 4-way fork of
       # `(cpos != 0).any()` per level to one path (zero positions are covered by the 'quat' / 'neither' modes); thorough explores all paths
       prune = [] if thorough else [v != 0 for nm, v in doc.vars.items() if nm.startswith('J') and nm.endswith('_p0')]
-      drv = fx.Driver(pre=prune)
-      for pi, (pc, (kind, val)) in enumerate(drv.paths(lambda: mjcf.fuse_bodies(text))):
+      left_s = fx_deadline - time.time()
+      if left_s < 10:
+        ck.harness_error('fuse %s: not explored (the FX phase used up its %d s budget on earlier documents)' % (tag, fx_budget))
+        continue
+      drv = fx.Driver(pre=prune, budget_s=min(120.0 if not thorough else 1200.0, left_s), timeout_ms=3000)
+      def guarded_paths():
+        try:
+          yield from drv.paths(lambda: mjcf.fuse_bodies(text))
+        except RuntimeError as ex_:
+          ck.harness_error('fuse %s: %s (path exploration not exhaustive for this document)' % (tag, ex_))
+      for pi, (pc, (kind, val)) in enumerate(guarded_paths()):
         npaths += 1
         if kind != 'ok':
           ck.add(Ob('fuse/%s/path%d raised %r' % (tag, pi, val), pc, z3.BoolVal(False), timeout=10, meta={'tag': tag}))
